@@ -80,8 +80,10 @@ class _FakeSocket:
             raise OSError("scripted send failure")
 
     def send(self, data):
-        self.sendall(data)
-        return len(data)
+        """a real socket's send() may take only part of the data: at most 512 bytes per call here"""
+        part = bytes(data[:512])
+        self.sendall(part)
+        return len(part)
 
     def close(self):
         pass
